@@ -7,7 +7,7 @@
     fold width and both notations. *)
 From Coq Require Import List NArith Arith Lia Bool Permutation Sorted.
 From MOC.Base Require Import RangeSet.
-From MOC.Model Require Import Qty Query Build Repr Adapters AsciiCodec AsciiProofs.
+From MOC.Model Require Import Qty Query Build Repr Adapters AsciiCodec AsciiProofs AsciiStreamProofs.
 Import ListNotations.
 Open Scope N_scope.
 
@@ -134,6 +134,30 @@ Proof.
   apply negb_false_iff. apply orb_true_iff. left. apply N.leb_le. exact Hb.
 Qed.
 
+Lemma cells_elems_facts q w d l cells : NormalCells q w d l cells ->
+  asc 0 (map (erange q w) (elems_of_cells cells)) /\ Forall (elem_wf q d) (elems_of_cells cells) /\
+  forall x, cov (map (erange q w) (elems_of_cells cells)) x <-> cov l x.
+Proof.
+  intros [N1 N2 N3 _]. split; [|split].
+  - unfold elems_of_cells, cellranges. destruct cells as [|[d0 i0] t]; [exact I|].
+    cbn [map asc] in N2. unfold crange at 1 in N2. unfold cell_range in N2. cbn [fst snd] in N2.
+    destruct N2 as (A1 & A2 & A3). apply group_asc; [lia|exact A1|exact A3].
+  - unfold elems_of_cells, cellranges. destruct cells as [|[d0 i0] t]; [constructor|].
+    inversion N1 as [|? ? [V1 V2] N1']; subst. cbn [fst snd] in V1, V2.
+    apply group_wf; [lia|exact V1|lia|exact N1'].
+  - intros x. rewrite <- N3. unfold elems_of_cells, cellranges. destruct cells as [|[d0 i0] t]; [reflexivity|].
+    rewrite (group_cov q w t d0 i0 1 x ltac:(lia)). cbn [map]. rewrite cov_cons. unfold crange at 2. unfold cell_range, inr. cbn [fst snd]. reflexivity.
+Qed.
+
+(** cells -> cell ranges -> ranges is the identity on the normal form *)
+Theorem elems_ranges_roundtrip q w d l cells : Canon l -> NormalCells q w d l cells ->
+  ranges_of_elems q w (elems_of_cells cells) = l.
+Proof.
+  intros Hc HN. destruct (cells_elems_facts q w d l cells HN) as [Hasc [_ Hcov]].
+  destruct (ranges_of_elems_spec q w _ Hasc) as [C1 C2].
+  apply canon_unique; [exact C1|exact Hc|]. intros x. rewrite C2. apply Hcov.
+Qed.
+
 Section MocRoundTrip.
   Variable sortf : qty -> list aelem -> list aelem.
   Hypothesis sortf_perm : forall q l, Permutation (sortf q l) l.
@@ -144,19 +168,9 @@ Section MocRoundTrip.
     exists l', from_ascii sortf q w (to_ascii d fold ul (elems_of_cells cells)) = AOk (d, l') /\
                ranges_of_elems q w l' = l.
   Proof.
-    intros Hw Hd Hc [N1 N2 N3 _].
+    intros Hw Hd Hc HN.
     set (es := elems_of_cells cells).
-    assert (Hasc : asc 0 (map (erange q w) es)).
-    { unfold es, elems_of_cells, cellranges. destruct cells as [|[d0 i0] t]; [exact I|].
-      cbn [map asc] in N2. unfold crange at 1 in N2. unfold cell_range in N2. cbn [fst snd] in N2.
-      destruct N2 as (A1 & A2 & A3). apply group_asc; [lia|exact A1|exact A3]. }
-    assert (Hwf : Forall (elem_wf q d) es).
-    { unfold es, elems_of_cells, cellranges. destruct cells as [|[d0 i0] t]; [constructor|].
-      inversion N1 as [|? ? [V1 V2] N1']; subst. cbn [fst snd] in V1, V2.
-      apply group_wf; [lia|exact V1|lia|exact N1']. }
-    assert (Hcov : forall x, cov (map (erange q w) es) x <-> cov l x).
-    { intros x. rewrite <- N3. unfold es, elems_of_cells, cellranges. destruct cells as [|[d0 i0] t]; [reflexivity|].
-      rewrite (group_cov q w t d0 i0 1 x ltac:(lia)). cbn [map]. rewrite cov_cons. unfold crange at 2. unfold cell_range, inr. cbn [fst snd]. reflexivity. }
+    destruct (cells_elems_facts q w d l cells HN) as [Hasc [Hwf Hcov]]. fold es in Hasc, Hwf, Hcov.
     pose proof (ascii_roundtrip sortf sortf_perm q w d fold ul es Hw Hd Hwf (asc_disj q w es 0 Hasc)) as RT.
     exists (sortf q (regroup d es)). split; [exact RT|].
     destruct (reader_sound sortf sortf_perm sortf_sorted q w _ _ _ RT) as [_ [_ S3]].
@@ -165,6 +179,16 @@ Section MocRoundTrip.
     intros x. rewrite C2, <- Hcov. apply (ascii_roundtrip_cov sortf sortf_perm q w d es x Hwf).
   Qed.
 End MocRoundTrip.
+
+(** the streaming variant: same chain, elements in file order *)
+Theorem ascii_stream_cells_roundtrip q w d l cells ul :
+  okw w -> d <= max_depth q w -> Canon l -> NormalCells q w d l cells ->
+  from_ascii_stream q w (to_ascii_stream q d ul (elems_of_cells cells)) = SOk d (elems_of_cells cells) /\
+  ranges_of_elems q w (elems_of_cells cells) = l.
+Proof.
+  intros Hw Hd Hc HN. split; [|apply (elems_ranges_roundtrip q w d l cells Hc HN)].
+  apply ascii_stream_roundtrip; [exact Hw|exact Hd|]. apply (cells_elems_facts q w d l cells HN).
+Qed.
 
 Example ascii_example :
   let es := elems_of_cells [(2, 3); (1, 1); (1, 2); (1, 3); (2, 20); (3, 100)] in
